@@ -378,10 +378,16 @@ pub fn read_binding(src: &str) -> Result<RustBinding, String> {
 
 fn equal_in(env: &TypeEnv, t1: &Type, env2: &TypeEnv, t2: &Type) -> bool {
     use candid::types::subtype::{equal, Gamma};
-    let mut merged = env.clone();
-    let t2r = merged.merge_type(env2.clone(), t2.clone());
-    let mut g = Gamma::new();
-    equal(&mut g, &merged, t1, &t2r).is_ok()
+    // the environment read back from the binding need not be well-formed (a newtype of itself is an alias cycle):
+    // /repo's `equal` may then panic on its own unwraps; that is "not equal", not a finding about `equal`
+    let (env, t1, env2, t2) = (env.clone(), t1.clone(), env2.clone(), t2.clone());
+    crate::guarded(move || {
+        let mut merged = env.clone();
+        let t2r = merged.merge_type(env2, t2);
+        let mut g = Gamma::new();
+        equal(&mut g, &merged, &t1, &t2r).is_ok()
+    })
+    .unwrap_or(false)
 }
 
 // ---------------------------------------------------------------------------------------------------------------
